@@ -62,6 +62,27 @@ def extra_entries():
     add('convert(dict cells)', 'dict', lambda a, b: etl.convert(a, 'n', lambda v: dict(v, z=1)))
     add('sort(list cells)', 'list', lambda a, b: etl.sort(a, 'k'))
     add('dicts(dict cells)', 'dict', lambda a, b: etl.dicts(a))
+
+    # sort-backed operators called with presorted=True: their inputs (fresh, mutable, rectangular lists sorted by key)
+    # ARE the sources whose rows must stay untouched
+    def presorted(a, b):
+        from petl.comparison import Comparable
+        def srt(t, w):
+            rows = [list(r[:w]) + [None] * (w - len(r[:w])) for r in t[1:]]
+            return [list(t[0])] + sorted(rows, key=lambda r: Comparable(r[0]))
+        return srt(a, len(a[0])), srt(b, len(b[0]))
+    for f in ('join', 'leftjoin', 'rightjoin', 'outerjoin', 'antijoin', 'lookupjoin'):
+        E.append({'name': f + '(presorted)', 'cells': None, 'prep': presorted,
+                  'fn': (lambda f: lambda a, b: getattr(etl, f)(a, b, key='k', presorted=True))(f)})
+    for f in ('complement', 'intersection'):
+        E.append({'name': f + '(presorted)', 'cells': None, 'prep': presorted,
+                  'fn': (lambda f: lambda a, b: getattr(etl, f)(etl.cut(a, 'k'), etl.cut(b, 'k'), presorted=True))(f)})
+    for f in ('duplicates', 'unique', 'distinct'):
+        E.append({'name': f + '(presorted)', 'cells': None, 'prep': presorted,
+                  'fn': (lambda f: lambda a, b: getattr(etl, f)(a, 'k', presorted=True))(f)})
+    E.append({'name': 'aggregate(presorted)', 'cells': None, 'prep': presorted, 'fn': lambda a, b: etl.aggregate(a, 'k', len, presorted=True)})
+    E.append({'name': 'mergesort(presorted)', 'cells': None, 'prep': presorted,
+              'fn': lambda a, b: etl.mergesort(etl.cut(a, 'k'), etl.cut(b, 'k'), key='k', presorted=True)})
     return E, with_cells
 
 
@@ -84,6 +105,8 @@ def run_entry(e, shape, k):
     a, b = make_sources(shape)
     if e.get('cells'):
         a = extra_entries()[1](a, e['cells'])
+    if e.get('prep'):
+        a, b = e['prep'](a, b)
     tracked = [_Container(a), _Container(b)] + [r for r in a] + [r for r in b]
     names = ['container a', 'container b'] + ['a[%d]' % i for i in range(len(a))] + ['b[%d]' % i for i in range(len(b))]
     snaps = []
